@@ -11,7 +11,10 @@ env = dict(os.environ, PYTHONPATH=wt, PYTHONDONTWRITEBYTECODE="1")
 def sh(cmd, **kw):
     return subprocess.run(cmd, shell=True, capture_output=True, text=True, env=env, **kw)
 res = dict(property=pid, mutant=k)
+head = subprocess.run("git -C /repo rev-parse HEAD", shell=True, capture_output=True, text=True).stdout.strip()
 sh("git -C %s checkout -- circuitpython_nrf24l01" % wt)
+sh("git -C %s checkout -q --detach %s" % (wt, head))      # evaluate against the current (repaired) tree
+res["base"] = head[:7]
 r = sh("cd %s && timeout 120 /venv/bin/python %s" % (wt, demo)); res["demo_clean_rc"] = r.returncode
 a = sh("git -C %s apply %s" % (wt, diff)); res["apply_rc"] = a.returncode
 if a.returncode:
